@@ -117,18 +117,21 @@ mutual
               omega
             | crash g3 => trivial
           | true =>
-            simp only [ite_true]
-            cases src with
-            | ready r =>
-              simp only [enterHere, Dispatch.asyncEntry, ite_true]
+            simp only [↓reduceIte]
+            rw [enterHere_eq]
+            have hsrc := startSrc_size cfg src ctx (asyncRetAcct (stepType mode hd)
+              ((G.allocCore (g.invoke id ctx via) (srcCores src + steps.length)).allocFunctor (srcFunctors src + steps.length)))
+            cases hst : startSrc cfg src ctx (asyncRetAcct (stepType mode hd)
+              ((G.allocCore (g.invoke id ctx via) (srcCores src + steps.length)).allocFunctor (srcFunctors src + steps.length))) with
+            | go r0 inh0 c0 g3 =>
+              simp only []
               apply asyncFinish_size
-              exact runSteps_size cfg steps _ true ctx r .inl _ B _ (by omega)
-            | contract p f => simp [enterHere, Dispatch.asyncEntry, SizeOut]
-            | contractOn e p f => simp [enterHere, Dispatch.asyncEntry, SizeOut]
-            | unit => simp [enterHere, Dispatch.asyncEntry, SizeOut]
-            | promiseFn e p f => simp [enterHere, Dispatch.asyncEntry, SizeOut]
-            | sharedReady r => simp [enterHere, Dispatch.asyncEntry, SizeOut]
-            | sharedContract p f => simp [enterHere, Dispatch.asyncEntry, SizeOut]
+              exact runSteps_size cfg steps (src == .unit) true c0 r0 inh0 g3 B _ (by omega)
+            | wait w inh0 g3 =>
+              rw [hst] at hsrc
+              simp only [SizeOut, mT, mFrames] at hsrc ⊢
+              omega
+            | crash g3 => trivial
       | doneException => trivial
       | doneError => trivial
       | doneResult => trivial
